@@ -90,10 +90,12 @@ type concResult struct {
 	build   concBuild
 	results []ItemResult
 	crash   string // stderr of a process-fatal event
-	crashAt string // progress file content
-	genErr  string
-	dir     string
-	sites   int
+	// timedOut: the monitor process ran into the wall-clock watchdog (inconclusive for what it had not reported)
+	timedOut bool
+	crashAt  string // progress file content
+	genErr   string
+	dir      string
+	sites    int
 }
 
 // runConc generates, (optionally) instruments, builds and runs the concurrent harness.
@@ -160,7 +162,9 @@ func (c *Ctx) runConc(files map[string]string, b concBuild, env []string) concRe
 			res.results = append(res.results, ir)
 		}
 	}
-	if r.Exit != 0 {
+	if r.TimedOut {
+		res.timedOut = true
+	} else if r.Exit != 0 {
 		res.crash = tailLines(r.Stderr, 80)
 		b, _ := os.ReadFile(prog)
 		res.crashAt = string(b)
@@ -205,6 +209,9 @@ func (c *Ctx) judgeConc(res concResult) {
 			c.Run.Violate(report.Violation{Key: k, Summary: fmt.Sprintf("%s (%s build): %s (%d violating executions)", ir.ID, b.name, v.Class, ir.NViol), Detail: v.Detail, Files: persistTree(res.dir),
 				Replay: concReplay(c.Prop, b)})
 		}
+	}
+	if res.timedOut {
+		c.Run.Inconclusive("monitor process (" + b.name + " build): wall-clock watchdog fired")
 	}
 	if res.crash != "" {
 		c.Run.Eval(1)
